@@ -623,4 +623,70 @@ theorem orRef_bridge (K : Kernel) sort h (xs : List (Except ε Bitmap)) : tryMul
     generalize mergeLoopRef Store.orAssignRef (c.map Cow.borrowed) rest = r2
     cases r2 <;> rfl
 
+/-! ### glue for the property statements -/
+
+def specOp : Op → MOp
+  | .or => .or
+  | .and => .and
+  | .sub => .sub
+  | .xor => .xor
+
+/-- the items seen through the abstraction -/
+def elemsItems (xs : List (Except ε Bitmap)) : List (Except ε Spec.Set) := xs.map (Except.map Bitmap.elems)
+
+theorem firstError_elemsItems : ∀ xs : List (Except ε Bitmap), firstError (elemsItems xs) = firstError xs
+  | [] => rfl
+  | .error _ :: _ => rfl
+  | .ok _ :: r => by
+    have := firstError_elemsItems r
+    simpa [elemsItems, firstError, Except.map] using this
+
+theorem okValues_elemsItems : ∀ xs : List (Except ε Bitmap),
+    okValues (elemsItems xs) = (okValues xs).map Bitmap.elems
+  | [] => rfl
+  | .error _ :: r => by
+    have := okValues_elemsItems r
+    simpa [elemsItems, okValues, Except.map] using this
+  | .ok _ :: r => by
+    have := okValues_elemsItems r
+    simpa [elemsItems, okValues, Except.map] using this
+
+theorem andOwnedLaw (K : Kernel) : AssignLaw andAssignOwned sAnd := ⟨andAssignOwned_nil, K.andOwned⟩
+theorem andRefLaw (K : Kernel) : AssignLaw andAssignRef sAnd := ⟨andAssignRef_nil, K.andRef⟩
+theorem subRefLaw (K : Kernel) : AssignLaw subAssignRef sSub := ⟨subAssignRef_nil, K.subRef⟩
+theorem subOwnedLaw (K : Kernel) : AssignLaw subAssignOwned sSub := ⟨subAssignOwned_nil, K.subRef⟩
+
+theorem mem_multiRes_of {op : MOp} {xs : List (Except ε Spec.Set)} {r : Except ε Spec.Set}
+    (hok : firstError xs = none → r = .ok (Spec.multi op (okValues xs)))
+    (herr0 : ∀ e t, xs = Except.error e :: t → r = .error e)
+    (herr : ∀ e, firstError xs = some e → r = .error e ∨ ((op = .and ∨ op = .sub) ∧ r = .ok []))
+    : r ∈ Spec.multiRes op xs := by
+  unfold Spec.multiRes
+  cases hfe : firstError xs with
+  | none => simp [hok hfe]
+  | some e =>
+    simp only
+    cases op with
+    | or => rcases herr e hfe with h | ⟨h, _⟩ <;> simp_all
+    | xor => rcases herr e hfe with h | ⟨h, _⟩ <;> simp_all
+    | and =>
+      match xs, hfe, herr0, herr with
+      | [], hfe, _, _ => simp [firstError] at hfe
+      | .error e' :: t, hfe, herr0, _ =>
+        simp only [firstError, Option.some.injEq] at hfe
+        subst hfe
+        simp [herr0 e' t rfl]
+      | .ok a :: t, hfe, _, herr =>
+        rcases herr e hfe with h | ⟨_, h⟩ <;> simp [h]
+    | sub =>
+      match xs, hfe, herr0, herr with
+      | [], hfe, _, _ => simp [firstError] at hfe
+      | .error e' :: t, hfe, herr0, _ =>
+        simp only [firstError, Option.some.injEq] at hfe
+        subst hfe
+        simp [herr0 e' t rfl]
+      | .ok a :: t, hfe, _, herr =>
+        rcases herr e hfe with h | ⟨_, h⟩ <;> simp [h]
+
+
 end Roaring.Multi
